@@ -1,5 +1,6 @@
 """C01 — namespace-scope declarations are extracted faithfully."""
 import canon
+from cxxheaderparser import types as T
 import gen_prog
 import impl
 import pcommon
@@ -10,6 +11,7 @@ TECHNIQUE = 'Lean 4: generic stream well-formedness theorem instantiated at the 
 LEAN_TARGET = "CxxModel.Props.C01"
 THEOREMS = ["Cxx.C01_dispatch", "Cxx.C01_keep_doxygen", "Cxx.C01_stream_well_formed", "Cxx.C01_fold_cons",
             "Cxx.C01_fold_append", "Cxx.dispatch_table_eq", "Cxx.rules_supported", "Cxx.C01_each_payload_stored_once", "Cxx.C01_one_callback", "Cxx.foldEvents_total", "Cxx.C01_enumerator_list", "Cxx.C01_enumerator_list_trailing_comma", "Cxx.enumList_last", "Cxx.enum_prefix", "Cxx.C01_using_namespace", "Cxx.C01_namespace_alias", "Cxx.C01_using_namespace_decl", "Cxx.C01_toplevel_using_namespace", "Cxx.C01_toplevel_using_declaration", "Cxx.C01_toplevel_variable", "Cxx.C01_declaration_statement", "Cxx.C01_toplevel_variables", "Cxx.C01_toplevel_typedef", "Cxx.C01_toplevel_forward_decl", "Cxx.C01_toplevel_using_alias", "Cxx.C01_toplevel_enum", "Cxx.C01_toplevel_function", "Cxx.C01_toplevel_function_params",
+    "Cxx.C01_function_general", "Cxx.toplevel_function_gen",
     "Cxx.C01_whole_source",
     "Cxx.C01_sequence",
     "Cxx.C01_variable_sequence",
@@ -80,6 +82,10 @@ def conforms(v, hint):
     return True
 
 
+def seed_mod(ctx):
+    return ctx.seed % 3
+
+
 def run(ctx):
     rng = ctx.rng("prog")
     n = ctx.budget(300, 20000)
@@ -108,6 +114,101 @@ def run(ctx):
     ctx.oracle("ast_first", len(progs), fails)
     ctx.oracle("typing", len(progs), tfails)
     ctx.extra["forms_generated"] = forms
+    # placeholder (`auto`) parameters: every parameter is reported with the qualifiers and declarator operators written
+    # on IT, whatever its siblings in the same parameter list, the same header or an earlier parse look like
+    pfails = []
+    np_ = 0
+    A = T.Type(T.PQName([T.AutoSpecifier()]))
+
+    def au(c=False, v=False):
+        return T.Type(T.PQName([T.AutoSpecifier()]), const=c, volatile=v)
+    PFORMS = [("auto %s", au()), ("auto const %s", au(c=True)), ("auto const& %s", T.Reference(au(c=True))), ("auto volatile* %s", T.Pointer(au(v=True))),
+              ("const auto %s", au(c=True)), ("auto& %s", T.Reference(au())), ("auto* %s", T.Pointer(au())), ("auto&& %s", T.MoveReference(au())),
+              ("auto const volatile %s", au(c=True, v=True)), ("auto* const %s", T.Pointer(au(), const=True))]
+    for i, (f1, t1) in enumerate(PFORMS):
+        for j, (f2, t2) in enumerate(PFORMS):
+            for src, getp in (("void f(%s, %s);" % (f1 % "a", f2 % "b"), lambda d: d.namespace.functions[0].parameters),
+                              ("void f(%s);\nvoid g(%s);" % (f1 % "a", f2 % "b"), lambda d: [d.namespace.functions[0].parameters[0], d.namespace.functions[1].parameters[0]])):
+                np_ += 1
+                try:
+                    ps = getp(parse_string(src))
+                    got = [(q.name, q.type) for q in ps]
+                    if got != [("a", t1), ("b", t2)]:
+                        pfails.append({"input": src, "diff": "parameters reported as %s" % [(n_, ty.format()) for n_, ty in got]})
+                except Exception as e:  # noqa
+                    pfails.append({"input": src, "diff": "rejected / not found: %r" % e})
+    for src in ("template <class T> struct Box { Box(T); };\ntemplate <class T> Box(T) -> Box<T>;", "template <auto N> struct PN {};\ntemplate <auto const M> struct PM {};\ntemplate <auto K> struct PK {};"):
+        np_ += 1
+        try:
+            d = parse_string(src)
+            if src.startswith("template <auto"):
+                flags = [c.class_decl.template.params[0].type.const for c in d.namespace.classes]
+                if flags != [False, True, False]:
+                    pfails.append({"input": src, "diff": "const flags of the non-type parameters: %s" % flags})
+        except CxxParseError as e:
+            pfails.append({"input": src, "diff": "valid declarations rejected: %s" % e})
+    ctx.oracle("placeholder_params", np_, pfails)
+    # types as written: the declarator generator's type trees in every namespace-scope position
+    import importlib
+    C02 = importlib.import_module("props.c02")
+    import gen_cpp as G
+    wfails = []
+    nw = 0
+    wtypes = []
+    for dpt in range(0, 3):
+        wtypes += G.exhaustive_types(dpt)
+    tg = G.TypeGen(rng)
+    for _ in range(ctx.budget(150, 6000)):
+        wtypes.append(tg.gen(rng.randint(0, 6)))
+    if not (ctx.tier == "thorough" or ctx.escalated):
+        wtypes = wtypes[:: 3]
+    for t in wtypes:
+        for c in ("variable", "param", "typedef", "alias", "return", "targ"):
+            ic = C02.in_context(t, c)
+            if ic is None or (c == "targ" and C02.needs_grouping(t)):
+                continue
+            src, ext = ic
+            nw += 1
+            try:
+                got_t, got_n = ext(parse_string(src))
+            except Exception as e:  # noqa
+                wfails.append({"input": src, "context": c, "diff": "rejected / not found: %r" % e})
+                continue
+            if got_t != t or got_n != "x":
+                wfails.append({"input": src, "context": c, "diff": str(canon.first_diff(impl.to_json(t), impl.to_json(got_t)))[:300]})
+    ctx.oracle("types_as_written", nw, wfails)
+    # function types as template arguments: `R (P...)` written inside `<...>` is reported as the function type whose return
+    # type and parameters are what the plain declaration `R fn(P...);` reports, in every position a templated name can stand
+    ffails = []
+    nf = 0
+    rets = ["int", "int&", "const std::string&", "T&&", "void", "int*", "std::vector<int>&", "const char*"]
+    plists = ["", "int", "int, char", "void (*)(int)", "char (&buf)[4]", "int (*)[3]", "const T&, U&&", "int (*cb)(char), int n", "std::pair<int, T>&"]
+    sigs = [(r, pl) for r in rets for pl in plists]
+    if not (ctx.tier == "thorough" or ctx.escalated):
+        sigs = [sg for k, sg in enumerate(sigs) if k % 3 == seed_mod(ctx)]
+    for r, pl in sigs:
+        try:
+            ref = parse_string("%s fn(%s);" % (r, pl)).namespace.functions[0]
+        except CxxParseError:
+            continue
+        for src, getarg in (
+            ("std::function<%s(%s)> v;", lambda d: d.namespace.variables[0].type.typename.segments[-1].specialization.args[0].arg),
+            ("Outer<int, Sig<%s(%s)>> v;", lambda d: d.namespace.variables[0].type.typename.segments[-1].specialization.args[1].arg.typename.segments[-1].specialization.args[0].arg),
+            ("void take(std::function<%s(%s)> cb);", lambda d: d.namespace.functions[0].parameters[0].type.typename.segments[-1].specialization.args[0].arg),
+            ("using A = Sig<%s(%s)>;", lambda d: d.namespace.using_alias[0].type.typename.segments[-1].specialization.args[0].arg),
+            ("typedef ns::Sig<%s(%s), 3> TD;", lambda d: d.namespace.typedefs[0].type.typename.segments[-1].specialization.args[0].arg),
+        ):
+            text = src % (r, pl)
+            nf += 1
+            try:
+                arg = getarg(parse_string(text))
+            except Exception as e:  # noqa
+                ffails.append({"input": text, "diff": "rejected / not found: %r" % e})
+                continue
+            if not isinstance(arg, T.FunctionType) or arg.return_type != ref.return_type or arg.parameters != ref.parameters:
+                ffails.append({"input": text, "diff": "template argument reported as %s, the plain declaration `%s fn(%s);` reports %s (%s)" % (
+                    type(arg).__name__ + " " + (arg.format() if hasattr(arg, "format") else ""), r, pl, ref.return_type.format(), ", ".join(q.format() for q in ref.parameters))})
+    ctx.oracle("function_type_arguments", nf, ffails)
     ctx.sample({"program": progs[0][0]})
     # correspondence: model vs implementation
     texts = pcommon.corpus() + [p[0] for p in progs[: ctx.budget(150, 5000)]] + pcommon.mutated_corpus(ctx, ctx.budget(300, 8000))
